@@ -22,11 +22,11 @@ UNCOVERED = []
 BOUNDED = ['vectors of variable-size items inside a frame: at most 1 item']
 
 
-def k7_unit(cls):
+def k7_unit(cls, builder=None, name=None):
     def thunk():
         P = E.cur()
         P.top_class = cls
-        obj = gen.sym_object(P, cls, 'o')
+        obj = builder(P) if builder is not None else gen.sym_object(P, cls, 'o')
         P.inputs['object'] = obj
         from checks import regions
         regions.exclude(P, obj)
@@ -107,7 +107,7 @@ def k7_unit(cls):
                 except Exception:
                     pass
         return dict(reproduced=False)
-    return Unit('K7/%s' % common.class_key(cls), run, replay=replay, search=search, clause='K7',
+    return Unit(name or 'K7/%s' % common.class_key(cls), run, replay=replay, search=search, clause='K7',
                 functions=['%s._parse' % cls.__name__, '%s.compose' % cls.__name__])
 
 
@@ -135,6 +135,19 @@ def units(tier, seed):
         [common.class_key(c) + ': see checks/classes.json' for c in e1.binary_classes() if e1.is_framing(c) and c not in classes]
     # "never accepts a proper prefix of a record as a complete record" also needs the accepted length to be the one the
     # header declares (a parser that masks the length field accepts a prefix of a long record): K8 of each framing unit
+    # the client hello handshake message (symbolic cipher suite, SCSV flags, optional renegotiation_info extension)
+    from checks import hello
+    from cryptoparser.tls.subprotocol import TlsHandshakeClientHello
+    hu = k7_unit(TlsHandshakeClientHello, builder=hello.sym_hello, name='K7/hello-lite TlsHandshakeClientHello')
+    _run0 = hu.run
+
+    def _run_hello():
+        r = _run0()
+        r.extra['bounded'] = sorted(set(r.extra.get('bounded', [])) | {'client hello with at most %d cipher suite(s), extensions: none or an empty renegotiation_info' % hello.max_suites()})
+        return r
+    hu.run = _run_hello
+    hu.search = lambda seed, hints=(): dict(reproduced=False)
+    out.append(hu)
     from checks import foundation, c03_k8
     k8 = [c03_k8.k8_unit(c) for c in common.select_classes(e1.binary_classes(), tier, 'K8') if e1.is_framing(c)]
     return list(out) + k8 + foundation.units(tier, seed)
